@@ -429,9 +429,9 @@ class X86:
                 self.pending.append(self.decisions + [False])
                 d = True
             elif t:
-                return True
+                d = True      # implied: recorded so that replays of a decision prefix stay aligned
             elif f:
-                return False
+                d = False
             else:
                 raise PathAbort()
             self.decisions.append(d)
